@@ -130,11 +130,13 @@ let run_file (ops : string list) (mode : mode) : string =
   String.concat " | " (List.rev !outs)
 
 (* ---- directory handles ----------------------------------------------------------- *)
-type dcmd = DOpen | DOp of int * dop
+type dcmd = DOpen | DOp of int * dop | DCreate of str | DRemove of str
 
 let parse_dop (t : string list) : dcmd =
   match t with
   | ["DOP"] -> DOpen
+  | ["DMK"; name] -> DCreate (str_of_tok name)
+  | ["DRM"; name] -> DRemove (str_of_tok name)
   | ["DRD"; h; n] -> DOp (int_of_string h, DReadDir (zi n))
   | ["DRN"; h; n] -> DOp (int_of_string h, DReaddirnames (zi n))
   | ["DSK"; h] -> DOp (int_of_string h, DRewind)
@@ -161,45 +163,65 @@ let canon (acc : string list Stdlib.ref) (n : int) (names : str list) (e : serr 
 
 let dirpath = str_of_string "/tmp/d"
 
+(* A directory that changes while handles are open on it.  The implementation model is exact for every history
+   (both take the listing at the first read after open / rewind).  The specification side follows dir_step_live; what
+   os.File shows of a change made after a handle's first read and before its next rewind is unspecified, so the handle
+   is "dirty" from the change to its next Seek(0,0) and its reads are rendered "?" on the specification side (the
+   harness does the same for os.File): no comparison there. *)
 let run_dir (names : str list) (ops : string list) (mode : mode) : string =
   let kfmode = (mode = Kf) in
-  let cut = ref false in
-  (* bytewise order of the names (OCaml's order on strings) *)
-  let listing = List.map str_of_string (List.sort compare (List.map string_of_str names)) in
+  let sorted l = List.map str_of_string (List.sort_uniq compare (List.map string_of_str l)) in
+  let cur = ref (sorted names) in      (* the directory now, bytewise order *)
   let w = ref (init_world_linux (n_of_int umask)) in
   let call c = let (w', r) = wstep !w c in w := w'; r in
+  let entry nm = dirpath @ str_of_string "/" @ nm in
   ignore (call (CMkdir (O, dirpath, n_of_int 493)));
-  List.iter (fun nm -> ignore (call (CWriteFile (O, dirpath @ str_of_string "/" @ nm, [], n_of_int 420)))) listing;
-  let specs : dfd array Stdlib.ref = ref [||] in
+  List.iter (fun nm -> ignore (call (CWriteFile (O, entry nm, [], n_of_int 420)))) !cur;
+  let specs : ldfd array Stdlib.ref = ref [||] in
+  let started : bool array Stdlib.ref = ref [||] in
+  let dirty : bool array Stdlib.ref = ref [||] in
   let acc_i : string list Stdlib.ref array Stdlib.ref = ref [||] in
   let acc_s : string list Stdlib.ref array Stdlib.ref = ref [||] in
   let outs = ref [] in
   let emit s = outs := s :: !outs in
+  let emit_same (s : string) (sp : string) =
+    if kfmode then emit "-,-"
+    else if mode = Full then emit (Printf.sprintf "m:%s o:%s s:%s cm:%s co:%s" s s sp s s)
+    else emit "m=eq o=eq" in
+  let changed () = Array.iteri (fun h st -> if st then !dirty.(h) <- true) !started in
   List.iter (fun os ->
     match parse_dop (split_ws os) with
     | DOpen ->
         let r = call (COpenFile (O, dirpath, N0, N0)) in
-        specs := Array.append !specs [| { d_cursor = O; d_closed = false } |];
+        specs := Array.append !specs [| ldfd0 |];
+        started := Array.append !started [| false |];
+        dirty := Array.append !dirty [| false |];
         acc_i := Array.append !acc_i [| Stdlib.ref [] |];
         acc_s := Array.append !acc_s [| Stdlib.ref [] |];
-        if kfmode then emit "-,-"
-        else begin
-          let s = show_sres (fproj_res r) in
-          let sp = Printf.sprintf "H:%d" (Array.length !specs - 1) in
-          if mode = Full then emit (Printf.sprintf "m:%s o:%s s:%s cm:%s co:%s" s s sp s s)
-          else (let p = if !cut then proj_dev s sp "" "" else "eq" in emit (Printf.sprintf "m=%s o=%s" p p))
-        end
+        emit_same (show_sres (fproj_res r)) (Printf.sprintf "H:%d" (Array.length !specs - 1))
+    | DCreate nm ->
+        let r = call (CWriteFile (O, entry nm, [], n_of_int 420)) in
+        cur := sorted (nm :: !cur); changed ();
+        emit_same (show_sres (fproj_res r)) "ok"
+    | DRemove nm ->
+        let r = call (CRemove (O, entry nm)) in
+        let present = List.mem nm !cur in
+        cur := List.filter (fun x -> x <> nm) !cur; changed ();
+        emit_same (show_sres (fproj_res r)) (if present then "ok" else "E:ENOENT")
     | DOp (h, o) ->
         if h >= Array.length !specs then emit (if kfmode then "-,-" else if mode = Full then "m:BADINDEX o:BADINDEX s:BADINDEX cm:BADINDEX co:BADINDEX" else "m=eq o=eq")
         else begin
-          let d = !specs.(h) in
-          if kfmode then begin
-            emit "-,-";
-            !specs.(h) <- fst (dir_step listing d o)
-          end else begin
+          let x = !specs.(h) in
+          let (x', rs) = dir_step_live !cur x o in
+          !specs.(h) <- x';
+          let isread = (match o with DReadDir _ | DReaddirnames _ -> true | _ -> false) in
+          let open_ = not x.l_d.d_closed in
+          (match o with DRewind when open_ -> !started.(h) <- false; !dirty.(h) <- false | _ -> ());
+          let unspecified = isread && !dirty.(h) in
+          if isread && open_ then !started.(h) <- true;
+          if kfmode then emit "-,-"
+          else begin
             let r = call (impl_dcall (nat_of_int h) o) in
-            let (d', rs) = dir_step listing d o in
-            !specs.(h) <- d';
             let nreq = match o with DReadDir n | DReaddirnames n -> int_of_z n | _ -> 1 in
             (match o with DRewind -> !acc_i.(h) := []; !acc_s.(h) := [] | _ -> ());
             let (exact, cn) = match r with
@@ -207,14 +229,14 @@ let run_dir (names : str list) (ops : string list) (mode : mode) : string =
                   (show_exact ns (Option.map fproj_err e), canon !acc_i.(h) nreq ns (Option.map fproj_err e))
               | RNames (l, e) -> (show_exact l (Option.map fproj_err e), canon !acc_i.(h) nreq l (Option.map fproj_err e))
               | _ -> let s = show_sres (fproj_res r) in (s, s) in
-            let sp = match rs with
+            let sp = if unspecified then "?" else match rs with
               | D_Batch (l, e) -> canon !acc_s.(h) nreq l e
               | D_Data (n, e) -> Printf.sprintf "B:%d:s:%s" (int_of_z n) (show_oserr e)
               | D_Int z -> Printf.sprintf "N:%d" (int_of_z z)
               | D_Ok -> "ok"
               | D_Err e -> "E:" ^ show_serr e in
             if mode = Full then emit (Printf.sprintf "m:%s o:%s s:%s cm:%s co:%s" exact exact sp cn cn)
-            else (let p = if !cut then proj_dev cn sp "" "" else "eq" in emit (Printf.sprintf "m=%s o=%s" p p))
+            else emit "m=eq o=eq"
           end
         end) ops;
   String.concat " | " (List.rev !outs)
